@@ -96,3 +96,17 @@ package block
 //@   callpre newProposer: cvs_hash(votes) == seq(headerFormat.VotesHash)
 //@   callpre newProposer: digest_hash(bd) == result_btp(seq(headerFormat.Result)) && digest_src(bd) == seq(bodyFormat.BTPDigest) && digest_hash(bd) == sha3(seq(bodyFormat.BTPDigest))
 //@   callpre newProposer: ghost(nsf_of) == bd && seq(headerFormat.NSFilter) == seq(ghost(nsf_bytes))
+
+// peeking at the version leaves a seekable reader where it was: the position asked for first is the
+// position restored afterwards (not the start of the stream)
+//@ func ReadVersion(r) (v, err)
+//@   trusted
+//@   modifies *
+//@ func PeekVersion(r) (v, rr, err)
+//@   arith int
+//@   nosafety
+//@   modifies *
+//@   opt no-callee-pre
+//@   opt inline-none
+//@   callpre ReadSeeker.Seek#0: offset == 0 && whence == 1
+//@   callpre ReadSeeker.Seek#1: offset == pos && whence == 0
